@@ -237,29 +237,58 @@ def call_implied_relations(F, term, truth):
     return out
 
 
-def edges_implying(fn, pr, want, is_a, is_b, strip=True, F=None):
-    """edges (block,label) of bool switches whose condition implies `A want B` where terms
-    satisfying is_a / is_b stand for A / B (either operand order)."""
-    out = []
+ORD = {255: "Lt", -1: "Lt", 0: "Eq", 1: "Gt"}
+ORD_ALL = {"Lt", "Eq", "Gt"}
+ORD_JOIN = {frozenset(["Lt"]): "Lt", frozenset(["Eq"]): "Eq", frozenset(["Gt"]): "Gt", frozenset(["Lt", "Eq"]): "Le",
+            frozenset(["Gt", "Eq"]): "Ge", frozenset(["Lt", "Gt"]): "Ne"}
+
+
+def rel_edges(fn, pr, F=None):
+    """yield (block, label, op, x, y): on this switch edge `x op y` holds.  Sources: bool switches on comparisons
+    (and on crate-local bool helpers whose true result implies comparisons of their arguments), and matches on the
+    `Ordering` returned by `Ord::cmp(x, y)`."""
     for b, lab, truth, term in bool_edges(fn, pr):
-        rels = []
         n = norm_rel(term, truth)
         if n is not None and n[0] != "call":
-            rels.append(n)
+            yield (b, lab, n[0], n[1], n[2])
         tt, tr = term, truth
         while tt[0] == "un" and tt[1] == "Not":
             tt, tr = tt[2], not tr
-        rels.extend(call_implied_relations(F, tt, tr))
-        for (op, x, y) in rels:
-            xs, ys = (P.strip(x), P.strip(y)) if strip else (x, y)
-            if is_a(xs) and is_b(ys):
-                if rel_implies(op, want):
-                    out.append((b, lab))
-                    break
-            elif is_a(ys) and is_b(xs):
-                if rel_implies(FLIP[op], want):
-                    out.append((b, lab))
-                    break
+        for (op, x, y) in call_implied_relations(F, tt, tr):
+            yield (b, lab, op, x, y)
+    for b in sorted(fn.cfg.reachable):
+        t = fn.blocks[b]["term"]
+        if t["k"] != "switch" or t["ty"] == "bool":
+            continue
+        term = pr.operand(t["on"])
+        if term[0] != "discr":
+            continue
+        c = P.strip(term[1], calls=False)
+        if not (c[0] == "call" and c[1].rsplit("::", 1)[-1] == "cmp" and "Ord" in c[1] and len(c[2]) == 2):
+            continue
+        vals = [v for v, _ in t["arms"]]
+        for lab, _tgt in fn.cfg.succ_edges[b]:
+            if lab == "otherwise":
+                rest = ORD_ALL - {ORD.get(v) for v in vals}
+                op = ORD_JOIN.get(frozenset(rest))
+            else:
+                op = ORD.get(lab)
+            if op:
+                yield (b, lab, op, c[2][0], c[2][1])
+
+
+def edges_implying(fn, pr, want, is_a, is_b, strip=True, F=None):
+    """edges (block,label) on which `A want B` is implied, where terms satisfying is_a / is_b stand for A / B
+    (either operand order)."""
+    out = []
+    for (b, lab, op, x, y) in rel_edges(fn, pr, F):
+        xs, ys = (P.strip(x), P.strip(y)) if strip else (x, y)
+        if is_a(xs) and is_b(ys):
+            if rel_implies(op, want) and (b, lab) not in out:
+                out.append((b, lab))
+        elif is_a(ys) and is_b(xs):
+            if rel_implies(FLIP[op], want) and (b, lab) not in out:
+                out.append((b, lab))
     return out
 
 
